@@ -613,7 +613,8 @@ def timing_variants(rng, create, morph, facts, k):
         # a second domain/codomain for a morphism arrives after everything else was closed: the two
         # models are identified although no row of the morphism diagram is new afterwards
         vs.append(("second-codomain-after-close", list(create) + first + facts + [["close"]] + second + [["close"]]))
-        k += 1
+        vs.append(("second-codomain-together-with-facts-after-close", list(create) + first + [["close"]] + second + facts + [["close"]]))
+        k += 2
     for j in range(max(0, k - len(vs))):
         allops = gen.dep_shuffle(rng, morph + facts, bound)
         vs.append(("shuffled-with-closes-%d" % j, gen.with_closes(rng, create, allops, closes=(1, 3))))
